@@ -1,0 +1,8 @@
+//go:build verif
+
+package encode
+
+import "math"
+
+func negativeInfinityBits() uint32 { return math.Float32bits(negativeInfinity) }
+func positiveInfinityBits() uint32 { return math.Float32bits(positiveInfinity) }
